@@ -107,6 +107,39 @@ func (b *Builder) assume(t Term) {
 	b.emit("(assert " + t + ")")
 }
 
+// assumeG: an assumption that belongs to a proof group (an SMT comment marks the
+// line; scriptFor leaves it out for obligations of another group).
+func (b *Builder) assumeG(t Term, group string) {
+	if t == "true" {
+		return
+	}
+	if group == "" {
+		b.emit("(assert " + t + ")")
+		return
+	}
+	b.emit("(assert " + t + ") ;grp:" + group)
+}
+
+// scriptFor is script for an obligation of the given proof group: assumptions
+// marked with another group are left out.
+func (b *Builder) scriptFor(p int, group string) string {
+	if group == "" {
+		return b.script(p)
+	}
+	var sb strings.Builder
+	sb.WriteString(strings.Join(b.top, "\n"))
+	sb.WriteString("\n")
+	sb.WriteString(b.strDecls())
+	for _, l := range b.lines[:p] {
+		if i := strings.LastIndex(l, " ;grp:"); i >= 0 && l[i+6:] != group {
+			continue
+		}
+		sb.WriteString(l)
+		sb.WriteString("\n")
+	}
+	return sb.String()
+}
+
 // ---- integer helpers ----
 
 func intLit(v *big.Int) Term {
